@@ -239,6 +239,9 @@ func paramType(p Param) reflect.Type {
 		t = rtype(p.T)
 	}
 	if p.Group != "" {
+		if nt := namedSliceType(p.SlT, p.T); nt != nil && p.Host == "" {
+			return nt
+		}
 		return reflect.SliceOf(t)
 	}
 	return t
@@ -263,6 +266,9 @@ func resultType(r Result) reflect.Type {
 		t = rtype(r.T)
 	}
 	if r.Slice || r.Flatten {
+		if nt := namedSliceType(r.SlT, r.T); nt != nil && r.Host == "" {
+			return nt
+		}
 		return reflect.SliceOf(t)
 	}
 	return t
